@@ -665,6 +665,10 @@ class RoutingPolicyGenerator(PartialGenerator, ABC):
             device: Any,
             action: SingleAction[AsPathActionValue],
     ) -> Iterator[Sequence[str]]:
+        if action.value.expand:
+            raise RuntimeError("as_path.expand is not supported for arista")
+        if action.value.delete:
+            raise RuntimeError("as_path.delete is not supported for arista")
         if action.value.set is not None:
             if action.value.prepend:
                 raise NotImplementedError(
@@ -685,10 +689,6 @@ class RoutingPolicyGenerator(PartialGenerator, ABC):
                 yield "set", "as-path prepend", path_item, *last_as_suffix
         else:
             yield "set", "as-path prepend", *last_as_suffix
-        if action.value.expand:
-            raise RuntimeError("as_path.expand is not supported for arista")
-        if action.value.delete:
-            raise RuntimeError("as_path.delete is not supported for arista")
 
     def _arista_then(
             self,
